@@ -250,3 +250,11 @@ Proof.
   intros Hb. apply names_eqb_eq.
   exact (proj1 (forallb_forall _ _) aminoName_sweep b (in_bytes256 b Hb)).
 Qed.
+
+(* ---- the init functions of sequtil: the tables are what the source computes ---------------------
+   Model/GoGlobals.v takes the tables from the run-time read-out (gen/Tables.v); the two init
+   functions of sequtil.go, translated, compute exactly those values. *)
+Theorem imp_init_tables :
+  imp_sequtil_init_sequtil_0 = Ret (g_sequtil_ntoi, g_sequtil_complementBytes)
+  /\ imp_sequtil_init_sequtil_1 = Ret g_sequtil_dnaFrom2bit.
+Proof. split; vm_compute; reflexivity. Qed.
